@@ -1,7 +1,10 @@
 """Put a real YowNoiseLayer into transport state without a handshake: the real WANoiseProtocol state
 machine and the real BlockingQueueSegmentedStream stay in place; only consonance's transport
-(the cipher) is replaced by a tagging stand-in ("ciphertext" = 0x01 + plaintext)."""
+(the cipher) is replaced by a tagging stand-in ("ciphertext" = 0x01 + plaintext + 15 zero bytes: the real cipher's 16 bytes of overhead)."""
 import boot  # noqa: F401
+
+
+TAG = b"\x00" * 15          # with the marker byte: 16 bytes of overhead per message, like the AES-GCM tag of the real transport
 
 
 class FakeTransport(object):
@@ -17,15 +20,15 @@ class FakeTransport(object):
         n = self.sent
         self.sent += 1
         self.nonces.append(n)
-        self._stream.write_segment(b"\x01" + bytes(data))
+        self._stream.write_segment(b"\x01" + bytes(data) + TAG)
         self.written.append(n)
 
     def recv(self):
         d = self._stream.read_segment()
         self.received += 1
-        if d[:1] != b"\x01":
+        if d[:1] != b"\x01" or d[-len(TAG):] != TAG:
             raise ValueError("decryption failed")
-        return bytes(d[1:])
+        return bytes(d[1:-len(TAG)])
 
 
 def to_transport(noise_layer):
@@ -39,4 +42,4 @@ def to_transport(noise_layer):
 
 def wire(data):
     """what the peer puts on the wire for a plaintext frame (segment header added by the caller's layer)"""
-    return b"\x01" + bytes(data)
+    return b"\x01" + bytes(data) + TAG
